@@ -1,6 +1,7 @@
 package main
 
 import (
+	"io"
 	"fmt"
 	"strconv"
 	"strings"
@@ -573,6 +574,7 @@ func checkC19(rep *Report, rng *Rng, tier string) {
 	rep.Extra["read_lists_compared_with_model"] = lazyCompared
 	rep.Extra["open_read_lists_compared_with_model"] = lazyOpenCompared
 	rep.Extra["mutation_read_lists_compared_with_model"] = lazyMutCompared
+	rep.Extra["calls_in_runs_after_reopen_compared_with_model"] = lazySeqCompared
 }
 
 func genC02(r *Rng, i int) (CfgDesc, []Op) {
@@ -649,15 +651,102 @@ func genC06(r *Rng, i int) (CfgDesc, []Op) {
 	return d, ops
 }
 
-var lazyCompared, lazyOpenCompared, lazyMutCompared int
+var lazyCompared, lazyOpenCompared, lazyMutCompared, lazySeqCompared int
 
 func init() {
 	postOracles["lazyreads"] = func(cfg *RunCfg) {
 		fresh := false // the store has just been re-opened: nothing is cached
 		cfg.OnWorld = func(w *World) { fresh = false }
+		// a RUN of lookups and mutations on one collection after a re-open: the ReadAt calls of every call of the run vs
+		// LazySeq.srun_reads (what one call loaded stays in memory for the next)
+		var seqLines []string
+		var seqImg []byte
+		seqName, seqNamed, seqOn := "", false, false
+		seqStep := func(w *World, op Op, got string) *Mismatch {
+			if op.K == "reopen" && op.H == 0 {
+				seqOn, seqLines, seqName, seqNamed = false, nil, "", false
+				if img := w.File.Bytes(); int64(len(img)) == w.IO.DurableEnd && len(img) > 0 && len(img) <= 30000 {
+					seqOn, seqImg = true, img
+				}
+				return nil
+			}
+			if !seqOn {
+				return nil
+			}
+			if op.H != 0 {
+				seqOn = false
+				return nil
+			}
+			b := map[bool]string{true: "t", false: "f"}
+			line := ""
+			switch op.K {
+			case "geti":
+				line = fmt.Sprintf("get %s %s", hx(op.Key), b[op.WV])
+			case "get":
+				line = fmt.Sprintf("get %s t", hx(op.Key))
+			case "exist":
+				line = fmt.Sprintf("get %s f", hx(op.Key))
+			case "min", "max":
+				line = op.K + " " + b[op.WV]
+			case "set":
+				if itemValid(op.Key, op.Val, op.Prio) {
+					line = fmt.Sprintf("set %s %s %d", hx(op.Key), hx(op.Val), op.Prio)
+				}
+			case "del":
+				line = "del " + hx(op.Key)
+			}
+			rc, ok := w.H[0].Ref.Colls[op.Name]
+			if line == "" || !ok || (seqNamed && seqName != op.Name) || w.ChunkMem || len(seqLines) >= 12 {
+				seqOn = false
+				return nil
+			}
+			seqName, seqNamed = op.Name, true
+			seqLines = append(seqLines, line)
+			m := getModel()
+			if _, err := io.WriteString(m.in, fmt.Sprintf("seqreads %d %s %d %s\n%s\n", rc.Cmp, hx([]byte(op.Name)), len(seqLines), hexFile(seqImg), strings.Join(seqLines, "\n"))); err != nil {
+				seqOn = false
+				return nil
+			}
+			var outs []string
+			for {
+				l, err := m.out.ReadString('\n')
+				if err != nil {
+					seqOn = false
+					return nil
+				}
+				l = strings.TrimRight(l, "\n")
+				if l == "END" {
+					break
+				}
+				outs = append(outs, l)
+			}
+			if len(outs) != len(seqLines) {
+				seqOn = false
+				return nil
+			}
+			lazySeqCompared++
+			if exp := outs[len(outs)-1]; exp != got {
+				return &Mismatch{Kind: "reads-vs-model", Expected: exp, Observed: got,
+					Note: fmt.Sprintf("ReadAt calls of call %d of a run of calls after re-opening vs the Coq model LazySeq.srun_reads (run: %s)", len(seqLines), strings.Join(seqLines, "; "))}
+			}
+			return nil
+		}
 		cfg.PostStep = func(w *World, i int, op Op, obs string) *Mismatch {
 			wasFresh := fresh
 			fresh = op.K == "reopen" && op.H == 0 && obs == "ok"
+			if w.File != nil {
+				var rl []string
+				for _, e := range w.LastEvents {
+					if e.Kind == 'R' {
+						rl = append(rl, fmt.Sprintf("%d:%d", e.Off, e.Len))
+					}
+				}
+				if op.K == "reopen" && obs != "ok" {
+					seqOn = false
+				} else if m := seqStep(w, op, strings.Join(append([]string{"r"}, rl...), " ")); m != nil {
+					return m
+				}
+			}
 			if w.File == nil || op.H != 0 {
 				return nil
 			}
